@@ -130,6 +130,7 @@ type State struct {
 	evTaint, callTaint bool
 	ext                *Term
 	emitN              int
+	callN              int
 	notes              []string
 	loopSeen           map[*ssa.BasicBlock]int
 	depth              int
@@ -139,7 +140,7 @@ func (s *State) clone() *State {
 	n := &State{
 		cells: make(map[int]Value, len(s.cells)), heap: make(map[int]*Term, len(s.heap)),
 		abs: make(map[string]*Term, len(s.abs)), cnt: make(map[string]*Term, len(s.cnt)),
-		rawHas: s.rawHas, rawVal: s.rawVal, ext: s.ext, emitN: s.emitN,
+		rawHas: s.rawHas, rawVal: s.rawVal, ext: s.ext, emitN: s.emitN, callN: s.callN,
 		evTaint: s.evTaint, callTaint: s.callTaint, depth: s.depth,
 	}
 	for k, v := range s.cells {
